@@ -49,11 +49,15 @@ def main():
         errs = [l for l in info['log'].split('\n') if 'Error' in l or l.startswith('File ')]
         proof['broken'].append('coq build (make) failed: ' + ' | '.join(errs[:6])[:800])
     if tier == 'thorough' and not proof['broken']:
-        rc, out = lib.sh('timeout 1700 coqchk -silent -o -R . Tdda Tdda.Props.%s 2>&1 | tail -40' % prop,
-                         cwd=lib.COQ, timeout=1800)
-        ctx.extra['coqchk'] = out[-2500:]
-        if 'Modules were successfully checked' not in out:
-            proof['broken'].append('coqchk did not confirm Props/%s.vo: %s' % (prop, out[-300:]))
+        rc, out = lib.sh('timeout 1700 coqchk -silent -o -R . Tdda Tdda.Props.%s 2>&1' % prop, cwd=lib.COQ, timeout=1800)
+        summary = out[out.rfind('CONTEXT SUMMARY'):] if 'CONTEXT SUMMARY' in out else out[-1500:]
+        ctx.extra['coqchk'] = {'exit': rc, 'summary': summary[-2500:]}
+        # coqchk exits 0 only when every module and everything it depends on re-checked; its summary must list no
+        # unsafe (co)fixpoints, type-in-type or assumed positivity
+        clean = all(('%s: <none>' % k) in summary for k in
+                    ('relying on type-in-type', 'relying on unsafe (co)fixpoints', 'whose positivity is assumed'))
+        if rc != 0 or 'CONTEXT SUMMARY' not in out or not clean:
+            proof['broken'].append('coqchk did not confirm Props/%s.vo (exit %s): %s' % (prop, rc, out[-300:]))
     ctx.model_ok = info['ok_model']
     if not info['ok_model']:
         proof['broken'].append('extracted model did not build; correspondence not run')
